@@ -27,7 +27,12 @@ from common import Check, Driver, Infra, VERIF, sarpy_guard  # noqa
 sys.path.insert(0, os.path.join(VERIF, 'translate'))
 
 REQUIRED = ['parse_serialize', 'serialize_parse_serialize', 'parse_serialize_twice', 'parse_serialize_any_fuel', 'ofDict_toDict', 'copy_eq', 'copy_eq_any_fuel',
-            'parseRow_serialized', 'row_view', 'filter_flatMap_key', 'serializeN_tag']
+            'parseRow_serialized', 'row_view', 'filter_flatMap_key', 'serializeN_tag',
+            # C05X: coefficient arrays, float arrays, object arrays (bounds, index canonicalisation), parameter collections
+            'parsePoly_serializePoly', 'polyOfDict_polyToDict', 'parsePolyBody_polyBody', 'readCoefs1_perm', 'readCoefs1_sparse',
+            'place_enum', 'place_perm', 'place_drop_fill', 'enumRows_eq', 'chunk_flatten', 'farr_parse', 'sizeOk_written',
+            'reindex_idem', 'reindex_of_canon', 'finishArr_of_wf', 'dedupe_of_distinct', 'dedupe_idem', 'parseArray_canon',
+            'parseParams_canon', 'wfField_mono', 'Example.codec_laws']
 
 SIZE_BASE = 1000000000
 FAMILY_URN = {
@@ -592,7 +597,7 @@ class ModelCodec:
             seen[i] = len(order)
             order.append(i)
             rows = self.info['tables'][self.info['order'][i]]
-            for r in rows or []:
+            for r in (rows if isinstance(rows, list) else []):
                 if 'cid' in r:
                     visit(r['cid'])
         visit(root_cid)
@@ -601,12 +606,23 @@ class ModelCodec:
     def qn(self, t):
         return f'{self.nss.get(t[0])}:{self.tags.get(t[1])}'
 
-    def encode_tabs(self, order, seen):
+    def encode_tabs(self, order, seen, texts):
+        """mini tables of one request; constants travel as the ids of their texts"""
         cls_s = []
         for i in order:
-            rows = self.info['tables'][self.info['order'][i]]
+            key = self.info['order'][i]
+            rows = self.info['tables'][key]
             if rows is None:
                 cls_s.append('C')
+                continue
+            if isinstance(rows, dict):
+                sp = rows['poly']
+                a0 = lambda n_: f'0:{self.tags.get(n_)}'
+                fill = texts.get(poly_fmt(self.info['classes'][key[0]], sp)(0.0))
+                w = '-' if sp['wrap_q'] is None else f'{self.qn(sp["wrap_q"][0])}:{self.qn(sp["wrap_q"][1])}'
+                cls_s.append('Y' + ':'.join([('1' if sp['two'] else '0'), self.qn(sp['coef_q']), self.qn(sp['pcoef_q']), a0(sp['dim1']), a0(sp['pdim1']),
+                                             a0(sp['dim2']), a0(sp['pdim2']), a0(sp['exp1']), a0(sp['pexp1']), a0(sp['exp2']), a0(sp['pexp2']),
+                                             str(sp['off']), str(self.tx.PRIM_ID['float']), str(self.names.get(sp['dname'])), str(fill), w]))
                 continue
             rs = []
             for r in rows:
@@ -617,9 +633,24 @@ class ModelCodec:
                     kk = f'c{seen[r["cid"]]}'
                 elif k == 'list':
                     kk = f'l{seen[r["cid"]]}'
+                elif k == 'array':
+                    sz = '-:-' if r['size'] is None else f'0:{self.tags.get(r["size"])}'
+                    ip = '-' if r['idxpos'] is None else str(r['idxpos'])
+                    lb = '-' if not r['labels'] else '.'.join(str(texts.get(l)) for l in r['labels'])
+                    kk = f'y{seen[r["cid"]]}:{self.qn(r["ctag"])}:{self.qn(r["pctag"])}:{sz}:0:{self.tags.get(r["psize"])}:{r["minlen"]}:{r["maxlen"]}:{ip}:{lb}'
+                elif k == 'floatarr':
+                    kk = (f'f{self.tx.PRIM_ID[r["prim"]]}:{self.qn(r["ctag"])}:{self.qn(r["pctag"])}:0:{self.tags.get(r["size"])}:0:{self.tags.get(r["psize"])}'
+                          f':0:{self.tags.get(r["idxattr"])}:{r["base"]}')
+                elif k == 'params':
+                    kk = f'q{seen[r["cid"]]}:' + ('-' if not r.get('wrap') else f'{self.qn(r["wrap"][0])}:{self.qn(r["wrap"][1])}')
+                elif k == 'count':
+                    kk = f'n{self.tx.PRIM_ID[r["prim"]]}:{r["src"]}'
+                elif k == 'const':
+                    kk = f'k{self.tx.PRIM_ID[r["prim"]]}:{texts.get(self.tx.const_text(r))}:{1 if r["as_attr"] else 0}'
+                elif k == 'which':
+                    kk = f'w{self.tx.PRIM_ID[r["prim"]]}:' + ('/'.join(f'{i_}.{texts.get(a_)}' for i_, a_ in r['alts']) or '-')
                 else:
-                    sz = '-' if r['size'] is None else f'0:{self.tags.get(r["size"])}'
-                    kk = f'y{seen[r["cid"]]}:{self.qn(r["ctag"])}:{self.qn(r["pctag"])}:{sz}'
+                    raise Infra(f'encode_tabs: row kind {k}')
                 rs.append(f'{self.names.get(r["name"])}:{self.qn(r["tag"])}:{self.qn(r["ptag"])}:{1 if r["required"] else 0}:{kk}')
             cls_s.append('R' + ','.join(rs))
         return ';'.join(cls_s)
@@ -642,16 +673,31 @@ class ModelCodec:
         return fmt(v)
 
 
+def poly_fmt(cls, sp):
+    """the formatting function a coefficient array class applies to its coefficients (`self._get_formatter(<key>)`)"""
+    entry = cls._numeric_format.get(sp['fmt_key'])
+    if isinstance(entry, str):
+        return ('{0:' + entry + '}').format
+    return entry if callable(entry) else str
+
+
 class Texts:
+    """texts interned as numbers; a canonical decimal natural n is SIZE_BASE + n on both sides (the model's str(n) / int(text))"""
+
     def __init__(self):
         self.ids = {}
         self.names = []
 
     def get(self, s):
+        if isinstance(s, str) and s.isascii() and s.isdigit() and (s == '0' or s[0] != '0') and len(s) < 30:
+            return SIZE_BASE + int(s)
         if s not in self.ids:
             self.ids[s] = len(self.names)
             self.names.append(s)
         return self.ids[s]
+
+    def name(self, i):
+        return str(i - SIZE_BASE) if i >= SIZE_BASE else self.names[i]
 
 
 def et_to_tokens(node, nsmap, mc, texts, toks):
@@ -709,10 +755,27 @@ def value_tokens(x, gcid, mc, seen, texts, toks, for_dict):
         toks.append(f'B{head[2]}:{head[3]}:{head[4]}')
         toks.extend(sub[1:])
         return
+    if isinstance(rows, dict):
+        # coefficient array: the value is the array itself (1-D: list of coefficients; 2-D: list of rows)
+        sp = rows['poly']
+        fmt = x._get_formatter(sp['fmt_key'])
+        co = x.Coefs
+        if sp['two']:
+            toks.append(f'N{co.shape[0]}')
+            for row in co:
+                toks.append(f'N{len(row)}')
+                toks.extend(f'P{texts.get(fmt(v))}' for v in row)
+        else:
+            toks.append(f'N{co.shape[0]}')
+            toks.extend(f'P{texts.get(fmt(v))}' for v in co)
+        return
     toks.append(f'N{len(rows)}')
     for r in rows:
-        v = getattr(x, r['name'])
         k = r['kind']
+        if k in ('count', 'const', 'which'):
+            toks.append('A')      # derived: carries no information
+            continue
+        v = getattr(x, r['name'])
         if v is None:
             toks.append('A')
         elif k in ('prim', 'attr'):
@@ -724,7 +787,7 @@ def value_tokens(x, gcid, mc, seen, texts, toks, for_dict):
             toks.append(f'P{texts.get(fmt(v.imag))}')
         elif k == 'child':
             value_tokens(v, r['cid'], mc, seen, texts, toks, for_dict)
-        elif k == 'list' and r['cls'] == mc.tx.SYN_PARAM:
+        elif k == 'params':
             d = v.get_collection() if isinstance(v, ParametersCollection) else v
             if not d and not for_dict:
                 toks.append('A')
@@ -744,7 +807,7 @@ def value_tokens(x, gcid, mc, seen, texts, toks, for_dict):
                 toks.append(f'N{len(items)}')
                 for it in items:
                     value_tokens(it, r['cid'], mc, seen, texts, toks, for_dict)
-        elif k == 'primlist':
+        elif k in ('primlist', 'floatarr'):
             if len(v) == 0 and not for_dict:
                 toks.append('A')
             else:
@@ -770,6 +833,22 @@ def _dict_tokens(x, d, gcid, mc, texts, toks):
         value_tokens(x, gcid, mc, None, texts, sub, True)
         toks.extend(sub)
         return
+    if isinstance(rows, dict):
+        sp = rows['poly']
+        fmt = x._get_formatter(sp['fmt_key'])
+        keys = list(d.keys())
+        if keys != [sp['dname']]:
+            toks.append(f'?polykeys:{keys}')
+            return
+        co = d[sp['dname']]
+        toks += ['D1', f'K{mc.names.get(sp["dname"])}', f'L{len(co)}']
+        for e in co:
+            if sp['two']:
+                toks.append(f'L{len(e)}')
+                toks.extend(f'P{texts.get(fmt(v))}' for v in e)
+            else:
+                toks.append(f'P{texts.get(fmt(e))}')
+        return
     byname = {r['name']: r for r in rows}
     keys = list(d.keys())
     toks.append(f'D{len(keys)}')
@@ -782,7 +861,9 @@ def _dict_tokens(x, d, gcid, mc, texts, toks):
         v = getattr(x, key)
         dv = d[key]
         k = r['kind']
-        if k in ('prim', 'attr'):
+        if k in ('count', 'const', 'which'):
+            toks.append(f'P{texts.get(dv if isinstance(dv, str) else str(dv))}')
+        elif k in ('prim', 'attr'):
             toks.append(f'P{texts.get(mc.prim_text(x, key, v, k == "attr"))}')
         elif k == 'child' and r['cls'] == mc.tx.SYN_COMPLEX:
             fmt = x._get_formatter(key)
@@ -792,7 +873,7 @@ def _dict_tokens(x, d, gcid, mc, texts, toks):
             toks += ['D2', f'K{mc.names.get("Real")}', f'P{texts.get(fmt(dv["Real"]))}', f'K{mc.names.get("Imag")}', f'P{texts.get(fmt(dv["Imag"]))}']
         elif k == 'child':
             _dict_tokens(v, dv, r['cid'], mc, texts, toks)
-        elif k == 'list' and r['cls'] == mc.tx.SYN_PARAM:
+        elif k == 'params':
             toks.append(f'L{len(dv)}')
             for kk, vv in dv.items():
                 toks += ['D2', f'K{mc.names.get("name")}', f'P{texts.get(kk)}', f'K{mc.names.get("value")}', f'P{texts.get(vv if isinstance(vv, str) else str(vv))}']
@@ -804,7 +885,7 @@ def _dict_tokens(x, d, gcid, mc, texts, toks):
                 continue
             for it, dit in zip(items, dv):
                 _dict_tokens(it, dit, r['cid'], mc, texts, toks)
-        elif k == 'primlist':
+        elif k in ('primlist', 'floatarr'):
             fmt = x._get_formatter(key)
             toks.append(f'L{len(dv)}')
             for it in dv:
@@ -1211,8 +1292,8 @@ def run(tier):
             try:
                 gcid = mc.cid(c, None)
                 order, seen = mc.mini(gcid)
-                tabs = mc.encode_tabs(order, seen)
                 texts = Texts()
+                tabs = mc.encode_tabs(order, seen, texts)
                 toks = []
                 value_tokens(x, gcid, mc, seen, texts, toks, False)
                 real = ElementTree.fromstring(b)
@@ -1260,7 +1341,6 @@ def run(tier):
                 disagreements.append({'case': case, 'msg': 'the implementation holds a value the model calls ill-formed for its class', 'value': val[:300]})
             if rt != 'true' or stable != 'true':
                 disagreements.append({'case': case, 'msg': f'model round trip {rt} / stability {stable} on a value of the implementation', 'value': val[:300]})
-            node = decode_size_texts(node, texts)
             if norm_empty(node, texts) != norm_empty(real, texts):
                 disagreements.append({'case': case, 'msg': 'model serialisation differs from the XML the implementation wrote',
                                       'model': explain(node, real, texts, mc)[0], 'python': explain(node, real, texts, mc)[1]})
@@ -1358,15 +1438,15 @@ def explain(model, python, texts, mc):
         try:
             if t[:1] == 'E':
                 p = t[1:].split(':')
-                tx = '-' if p[3] == '-' else repr(texts.names[int(p[3])][:30])
+                tx = '-' if p[3] == '-' else repr(texts.name(int(p[3]))[:30])
                 return f'<{mc.nss.names[int(p[0])] or ""}:{mc.tags.names[int(p[1])]} attrs={p[2]} text={tx} children={p[4]}>'
             if t[:1] == 'P':
-                return 'P' + repr(texts.names[int(t[1:])][:30])
+                return 'P' + repr(texts.name(int(t[1:]))[:30])
             if t[:1] == 'K' and t[1:].isdigit():
                 return 'K:' + mc.names.names[int(t[1:])]
             if t[:1].isdigit():
                 p = t.split(':')
-                return f'@{mc.nss.names[int(p[0])] or ""}:{mc.tags.names[int(p[1])]}={texts.names[int(p[2])][:30]!r}'
+                return f'@{mc.nss.names[int(p[0])] or ""}:{mc.tags.names[int(p[1])]}={texts.name(int(p[2]))[:30]!r}'
         except Exception:
             pass
         return t
